@@ -227,6 +227,14 @@ func checkC02(P *Prog, r *Result) {
 	// an un-coercible value yields a coerce issue: what is un-coercible is the coercer's decision (a configured coercer
 	// may refuse NaN), so every present value goes through it (C03's rule)
 	shareRule(P, r, checkC03, "C03/coerced-value-stored", nil, "C02/coercer-decides", 1)
+	// "a value that satisfies its node yields no issue": a built-in test reports exactly when its documented predicate is
+	// false (`*v == t` for time.Equal reports equal instants in different zones) - C20's rule
+	shareRule(P, r, checkC20, "C20/predicate", nil, "C02/tests-decide-their-predicate", 22)
+	// an un-coercible value yields a coerce issue: a number outside the destination's range is un-coercible, not wrapped
+	// (C18's rule: every lossy conversion in the coercers is guarded)
+	// (conversions *to an integer type*: those wrap or saturate out of range; the rounding of a large integer into a
+	// float64 is C18's business, not a missing issue)
+	shareRule(P, r, checkC18, "C18/guarded-convert", func(o Obligation) bool { return strings.Contains(o.Construct, "→int") }, "C02/out-of-range-is-a-coerce-issue", 3)
 	// ---- nil-iff-empty ----
 	P.checkNilIffEmpty(r)
 	// ---- a failure is never swallowed by a flag left behind, nor suppressed by an unrelated earlier issue ----
